@@ -77,11 +77,11 @@ fn bh8_total(flags: u8) {
     }
     kani::cover!(true, "end reached");
 }
-//@ {"name":"c06e_block_header8_total_f00","props":["C06","C04"],"tier":"quick","obligation":"C06-E","timeout":900,"mem_gb":12,"functions":["xz::reader::BlockHeader::parse","xz::parse_multibyte_integer","xz::count_multibyte_integer_size","xz::FilterType::try_from"],"bounds":"8-byte header: size byte 0x01 and flags byte 0x00 concrete (layout), other 6 bytes arbitrary; unwind 12","assumes":["layout bytes concrete"]}
+//@ {"name":"c06e_block_header8_total_f00","props":["C06","C04"],"tier":"thorough","obligation":"C06-E","timeout":1800,"mem_gb":20,"functions":["xz::reader::BlockHeader::parse","xz::parse_multibyte_integer","xz::count_multibyte_integer_size","xz::FilterType::try_from"],"bounds":"8-byte header: size byte 0x01 and flags byte 0x00 concrete (layout), other 6 bytes arbitrary; unwind 12","assumes":["layout bytes concrete"]}
 #[kani::proof]
 #[kani::unwind(12)]
 fn c06e_block_header8_total_f00() { bh8_total(0x00); }
-//@ {"name":"c06e_block_header8_total_f01","props":["C06","C04"],"tier":"quick","obligation":"C06-E","timeout":900,"mem_gb":12,"functions":["xz::reader::BlockHeader::parse","xz::parse_multibyte_integer","xz::count_multibyte_integer_size","xz::FilterType::try_from"],"bounds":"8-byte header: size byte 0x01 and flags byte 0x01 concrete (layout), other 6 bytes arbitrary; unwind 12","assumes":["layout bytes concrete"]}
+//@ {"name":"c06e_block_header8_total_f01","props":["C06","C04"],"tier":"thorough","obligation":"C06-E","timeout":1800,"mem_gb":20,"functions":["xz::reader::BlockHeader::parse","xz::parse_multibyte_integer","xz::count_multibyte_integer_size","xz::FilterType::try_from"],"bounds":"8-byte header: size byte 0x01 and flags byte 0x01 concrete (layout), other 6 bytes arbitrary; unwind 12","assumes":["layout bytes concrete"]}
 #[kani::proof]
 #[kani::unwind(12)]
 fn c06e_block_header8_total_f01() { bh8_total(0x01); }
@@ -89,7 +89,7 @@ fn c06e_block_header8_total_f01() { bh8_total(0x01); }
 #[kani::proof]
 #[kani::unwind(12)]
 fn c06e_block_header8_total_f40() { bh8_total(0x40); }
-//@ {"name":"c06e_block_header8_total_f80","props":["C06","C04"],"tier":"quick","obligation":"C06-E","timeout":900,"mem_gb":12,"functions":["xz::reader::BlockHeader::parse","xz::parse_multibyte_integer","xz::count_multibyte_integer_size","xz::FilterType::try_from"],"bounds":"8-byte header: size byte 0x01 and flags byte 0x80 concrete (layout), other 6 bytes arbitrary; unwind 12","assumes":["layout bytes concrete"]}
+//@ {"name":"c06e_block_header8_total_f80","props":["C06","C04"],"tier":"thorough","obligation":"C06-E","timeout":1800,"mem_gb":20,"functions":["xz::reader::BlockHeader::parse","xz::parse_multibyte_integer","xz::count_multibyte_integer_size","xz::FilterType::try_from"],"bounds":"8-byte header: size byte 0x01 and flags byte 0x80 concrete (layout), other 6 bytes arbitrary; unwind 12","assumes":["layout bytes concrete"]}
 #[kani::proof]
 #[kani::unwind(12)]
 fn c06e_block_header8_total_f80() { bh8_total(0x80); }
@@ -124,7 +124,7 @@ fn c06e_block_header8_total_f3c() { bh8_total(0x3c); }
 
 // C04-A / C06-E / C03-D: BlockHeader::parse on every 12-byte header with flags 0x00 (one filter, no size fields): Ok only for
 // the single layout the spec allows, with the right CRC32, and the dictionary size the spec formula gives.
-//@ {"name":"c04a_block_header12_f00","props":["C04","C06","C03"],"obligation":"C04-A","timeout":2400,"mem_gb":12,"functions":["xz::reader::BlockHeader::parse","xz::parse_multibyte_integer","xz::count_multibyte_integer_size","xz::FilterType::try_from"],"bounds":"12-byte header: size byte 0x02 and flags byte 0x00 concrete (layout), the other 10 bytes arbitrary; unwind 12","assumes":["layout bytes concrete: header_size_encoded=2, block_flags=0"]}
+//@ {"name":"c04a_block_header12_f00","props":["C04","C06","C03"],"obligation":"C04-A","timeout":2400,"mem_gb":18,"functions":["xz::reader::BlockHeader::parse","xz::parse_multibyte_integer","xz::count_multibyte_integer_size","xz::FilterType::try_from"],"bounds":"12-byte header: size byte 0x02 and flags byte 0x00 concrete (layout), the other 10 bytes arbitrary; unwind 12","assumes":["layout bytes concrete: header_size_encoded=2, block_flags=0"]}
 #[kani::proof]
 #[kani::unwind(12)]
 fn c04a_block_header12_f00() {
@@ -220,7 +220,7 @@ fn c04a_index_zero_records() {
     kani::cover!(true, "end reached");
 }
 
-//@ {"name":"c04a_index_one_record","props":["C04","C06"],"obligation":"C04-A","timeout":1500,"mem_gb":12,"functions":["xz::reader::Index::parse","xz::encode_multibyte_integer","xz::count_multibyte_integer_size_for_value"],"bounds":"count byte 0x01 concrete; two one-byte record fields arbitrary (< 0x80) and 4 CRC bytes arbitrary; unwind 11","assumes":["record count concrete = 1","record fields are single-byte multibyte integers (layout concrete)"]}
+//@ {"name":"c04a_index_one_record","props":["C04","C06"],"tier":"thorough","obligation":"C04-A","timeout":2400,"mem_gb":20,"functions":["xz::reader::Index::parse","xz::encode_multibyte_integer","xz::count_multibyte_integer_size_for_value"],"bounds":"count byte 0x01 concrete; two one-byte record fields arbitrary (< 0x80) and 4 CRC bytes arbitrary; unwind 11","assumes":["record count concrete = 1","record fields are single-byte multibyte integers (layout concrete)"]}
 #[kani::proof]
 #[kani::unwind(11)]
 fn c04a_index_one_record() {
@@ -382,7 +382,9 @@ fn next_stream_after_padding(pmax: usize) {
     let src = Src::<21>::new(buf, p + 12);
     let mut r = fresh_reader(src, true);
     r.stream_header = Some(StreamHeader { check_type: CheckType::None });
-    r.blocks_processed = 3;
+    r.blocks_processed = kani::any(); // the previous stream may have had any number of blocks, including none
+    kani::assume(r.blocks_processed <= 3);
+    let empty_prev = r.blocks_processed == 0;
     let res = r.try_start_next_stream();
     if p % 4 == 0 {
         assert!(matches!(res, Ok(true)), "C12-A: valid next stream after legal stream padding not started");
@@ -392,8 +394,8 @@ fn next_stream_after_padding(pmax: usize) {
     } else {
         assert!(res.is_err(), "C12-A: stream padding that is not a multiple of four accepted");
     }
-    kani::cover!(p == 4, "four bytes of padding");
-    kani::cover!(p == 0, "no padding");
+    kani::cover!(p == 4 && empty_prev, "four bytes of padding after an empty stream");
+    kani::cover!(p == 0 && !empty_prev, "no padding");
     kani::cover!(p == 5, "illegal padding");
     core::mem::forget(r);
 }
@@ -506,16 +508,13 @@ fn c16c_xz_stops_after_footer() {
 
 // C04-A: end of stream: the index must list exactly as many records as blocks were decoded, and the footer's stream
 // flags must equal the header's - otherwise blocks were dropped/duplicated or the check type was switched.
-//@ {"name":"c04a_index_count_and_flags_match","props":["C04","C12"],"obligation":"C04-A","timeout":1800,"mem_gb":9,"functions":["xz::reader::XZReader::parse_index_and_footer","xz::reader::Index::parse","xz::reader::StreamFooter::parse"],"bounds":"valid empty index (0 records) + valid footer whose flags byte is symbolic over the 4 check ids (CRC fixed up); blocks_processed symbolic 0..=3; stream header check type CRC32; unwind 24","assumes":[]}
-#[kani::proof]
-#[kani::unwind(24)]
-fn c04a_index_count_and_flags_match() {
+// (The footer bytes are concrete per harness: a CRC fixed up over a symbolic flags byte makes the parser's CRC
+// comparison an equality of two symbolic CRC32 values - did not finish in 30 min.)
+fn index_count_and_flags(fl: u8) {
     let mut buf = [0u8; 19];
     // index body after the indicator byte: 00 (count) | 00 00 (padding) | crc32 over [00 00 00 00]
     let ic = crc32_of(&[0u8, 0, 0, 0]).to_le_bytes();
     buf[3] = ic[0]; buf[4] = ic[1]; buf[5] = ic[2]; buf[6] = ic[3];
-    let fl: u8 = kani::any();
-    kani::assume(fl == 0 || fl == 1 || fl == 4 || fl == 10);
     let body = [1u8, 0, 0, 0, 0, fl];
     let fc = crc32_of(&body).to_le_bytes();
     buf[7] = fc[0]; buf[8] = fc[1]; buf[9] = fc[2]; buf[10] = fc[3];
@@ -529,7 +528,52 @@ fn c04a_index_count_and_flags_match() {
     r.blocks_processed = blocks;
     let res = r.parse_index_and_footer();
     assert!(res.is_ok() == (blocks == 0 && fl == 1), "C04-A: stream end accepted although block count or stream flags disagree (or refused although they agree)");
-    kani::cover!(blocks == 2 && fl == 1, "blocks missing from the index");
-    kani::cover!(blocks == 0 && fl == 4, "footer names a different check type");
+    kani::cover!(blocks == 2, "blocks missing from the index");
+    kani::cover!(blocks == 0, "count matches");
+    core::mem::forget(r);
+}
+
+//@ {"name":"c04a_index_count_matches_blocks","props":["C04","C12"],"obligation":"C04-A","timeout":1800,"mem_gb":9,"functions":["xz::reader::XZReader::parse_index_and_footer","xz::reader::Index::parse","xz::reader::StreamFooter::parse"],"bounds":"valid empty index (0 records) + valid CRC32 footer (concrete bytes); blocks_processed symbolic 0..=3; unwind 24","assumes":[]}
+#[kani::proof]
+#[kani::unwind(24)]
+fn c04a_index_count_matches_blocks() { index_count_and_flags(1); }
+
+//@ {"name":"c04a_footer_flags_match_header","props":["C04"],"obligation":"C04-A","timeout":1800,"mem_gb":9,"functions":["xz::reader::XZReader::parse_index_and_footer","xz::reader::StreamFooter::parse"],"bounds":"as above, but the (CRC-consistent) footer names CRC64 while the stream header said CRC32; unwind 24","assumes":[]}
+#[kani::proof]
+#[kani::unwind(24)]
+fn c04a_footer_flags_match_header() { index_count_and_flags(4); }
+
+// C05: an I/O error from the source while the reader probes for a further stream (stream padding / first magic byte)
+// must be returned to the caller - it must not be taken for the end of the input.
+//@ {"name":"c05_xz_next_stream_source_error","props":["C05","C12"],"obligation":"C05-C","timeout":1200,"mem_gb":9,"functions":["xz::reader::XZReader::try_start_next_stream"],"bounds":"source = 0..=4 zero bytes of stream padding (symbolic) after which every read call fails with a non-retryable error; unwind 8","assumes":[]}
+#[kani::proof]
+#[kani::unwind(8)]
+fn c05_xz_next_stream_source_error() {
+    let p: usize = kani::any();
+    kani::assume(p <= 4);
+    let mut src = FaultySrc::<8>::new([0u8; 8], 8);
+    src.chunk = 1;
+    src.err_at = p; // the first p probe reads deliver a zero byte, the next one fails
+    let mut r = XZReader::new(src, true);
+    let res = r.try_start_next_stream();
+    assert!(matches!(res, Err(crate::Error::Other(_))), "C05: source error while looking for the next stream was swallowed");
+    kani::cover!(p == 0, "error at the first probe");
+    kani::cover!(p == 4, "error after four padding bytes");
+    core::mem::forget(r);
+}
+
+// C05: an Interrupted from the source while probing for the next stream must be retried, not reported as a failure.
+//@ {"name":"c05_xz_next_stream_interrupted","props":["C05"],"obligation":"C05-C","timeout":1200,"mem_gb":9,"functions":["xz::reader::XZReader::try_start_next_stream"],"bounds":"source = 4 zero bytes then end of input; one Interrupted at read call 0..=3 (symbolic); unwind 8","assumes":[]}
+#[kani::proof]
+#[kani::unwind(8)]
+fn c05_xz_next_stream_interrupted() {
+    let mut src = FaultySrc::<4>::new([0u8; 4], 4);
+    src.chunk = 1;
+    src.intr_at = kani::any();
+    kani::assume(src.intr_at <= 3);
+    let mut r = XZReader::new(src, true);
+    let res = r.try_start_next_stream();
+    assert!(matches!(res, Ok(false)), "C05: Interrupted while probing for the next stream was not retried");
+    kani::cover!(true, "end reached");
     core::mem::forget(r);
 }
